@@ -36,6 +36,10 @@ F = lambda u: f"PF({TOK}, min_segment_length, penalty, {u})"
 C = lambda s, e: f"AGG2({TOK}, {s}, {e})"
 M = "min_segment_length"
 TD = f"(2 * {M} - 1 + _k)"        # prefixes of length <= TD are done at the loop head
+SEGC_LAST = (f"(implies(len(result[1]) >= 1, {F('n')} == {F('result[1][len(result[1]) - 1]')} + {C('result[1][len(result[1]) - 1]', 'n')} + penalty)"
+             f" and implies(len(result[1]) == 0, {F('n')} == {C('0', 'n')}))")
+SEGC_LINKS = f"forall(range(len(result[1]) - 1), lambda q: {F('result[1][q + 1]')} == {F('result[1][q]')} + {C('result[1][q]', 'result[1][q + 1]')} + penalty)"
+SEGC_FIRST = f"implies(len(result[1]) >= 1, {F('result[1][0]')} == {C('0', 'result[1][0]')})"
 
 contract(
     target="skchange/change_detectors/pelt.py::run_pelt",
@@ -53,7 +57,15 @@ contract(
                         f" and implies(len(result[1]) == 0, {F('n')} == {C('0', 'n')})",
         "segcost_links": f"forall(range(len(result[1]) - 1), lambda q: {F('result[1][q + 1]')} == {F('result[1][q]')} + {C('result[1][q]', 'result[1][q + 1]')} + penalty)",
         "segcost_first": f"implies(len(result[1]) >= 1, {F('result[1][0]')} == {C('0', 'result[1][0]')})",
+        # ... telescoped (lemma L_tel, induction): the final score is the total penalised cost of the returned segmentation (one penalty per
+        # segment, minus one: PF counts a penalty per changepoint) -- with L_bellman (PF(n) <= cost of EVERY admissible segmentation) the
+        # returned changepoints minimise the total penalised cost
+        "total_cost": "have(" + SEGC_FIRST + ", " + SEGC_LINKS + ", " + SEGC_LAST + ", "
+                      f"using(L_tel(lam('real', len(result[1]) + 2, lambda q: ite(q == 0, -penalty, {F('ite(q == 0, 0, ite(q <= len(result[1]), result[1][q - 1], n))')})), "
+                      f"lam('real', len(result[1]) + 2, lambda q: SEGTOT({TOK}, result[1], n, penalty, q)), -penalty), "
+                      f"{F('n')} == SEGTOT({TOK}, result[1], n, penalty, len(result[1]) + 1) - penalty))",
     },
+    post_uses=[f"SEGTOT_DEF({TOK}, result[1], n, penalty)"],
     invariants={"loop#1": {
         "shapes": "len(opt_cost) == n + 1 and len(prev_cpts) == n and len(cost_eval_starts) == len(start_prune_times)"
                   " and never_pruned == n + min_segment_length + 1 and num_obs == n and min_segment_shift == min_segment_length - 1"
